@@ -1317,5 +1317,8 @@ def run(rep, tier):
              "(2 fields: full product; 3 fields: sample) and optional '<x>._mapper' entries; stream falsy-lattice: the same shapes "
              "with every value falsy (0, '', False, 0.0, empty nested structure, empty Array/Set); every case with "
              "camel_case_convert off and on, through Serializer/Deserializer or serialize()/deserialize_structure(), on a fresh "
-             "class or after the class was served under another mapper; distinct = (kinds, renames, assignment, explicit mapper?); "
+             "class or after the class was served under another mapper; stream hetero-history: Array(items=[K0,K1(,K2)]) / "
+             "Tuple(items=..) / Array[AnyOf[..]] / Set[AnyOf[..]] / one Array per class over 2-3 structure classes with shared "
+             "field names renamed differently x histories over the mapper cache (container first / items first / interleaved, "
+             "schema export as filler), key-set and round-trip clauses judged for the class of every step; distinct = (kinds, renames, assignment, explicit mapper?); "
              "wrappers = valid mapper / one non-field key")
